@@ -128,7 +128,13 @@ class Impl:
                 'nextId': m.next_id}
 
 def canon_obs(o):
-    return {'assets': sorted([a[0], a[1], a[2], sorted(a[3]), a[4], sorted(a[5])] for a in o['assets']),
+    # back-references of an asset are compared as the multiset of associations they point to (described by content),
+    # not by list position: with two value-equal associations in the model, `list.remove` takes the first equal one
+    # where the Lean state machine takes the object itself - the same model up to the order of equal entries
+    def desc(i):
+        if not (0 <= i < len(o['associations'])): return ['<not in model>', i]
+        a = o['associations'][i]; return [a[0], a[1], sorted(a[2]), a[3], sorted(a[4])]
+    return {'assets': sorted([a[0], a[1], a[2], sorted(a[3]), a[4], sorted(desc(i) for i in a[5])] for a in o['assets']),
             'associations': sorted([a[0], a[1], sorted(a[2]), a[3], sorted(a[4]), a[5]] for a in o['associations']),
             'attackers': sorted([t[0], t[1], sorted([e[0], sorted(e[1])] for e in t[2])] for t in o['attackers']),
             'assetIds': sorted(o['assetIds']), 'assetNames': sorted(o['assetNames']),
